@@ -57,5 +57,10 @@ Check == idx > 0 =>
       adm(e) == Admissible(e, doc)
       case == [p |-> Prop, kind |-> "search", doc |-> doc,
                multi |-> { [expr |-> Render(e), adm |-> adm(e), carriers |-> cr] : e \in Exprs, cr \in assigns }]
-  IN Emit => PrintT("CASE " \o ToJson(case))
+      \* Where the specification leaves the VALUE open (// and % of operands of opposite sign, ...) the
+      \* property still says that it does not depend on the carrier: all assignments must agree
+      agree == [p |-> Prop, kind |-> "search", doc |-> doc,
+                multi |-> { [expr |-> Render(e), adm |-> adm(e), carriersets |-> SetToSeq(assigns)] : e \in { x \in Exprs : Open \in adm(x) } }]
+  IN /\ Emit => PrintT("CASE " \o ToJson(case))
+     /\ (Emit /\ agree.multi # {}) => PrintT("CASE " \o ToJson(agree))
 =============================================================================
